@@ -414,3 +414,155 @@ def g_adjoint(cls, mode, needs, region=None, canary=False):
                 obs.append(Ob('%s/slot%d-filter-gradient-not-None' % (pid, slot), 'POST', 'refuted', 'structural', 0))
         obs += solve.safety_obligations(pid, c, mv)
     return obs, info
+
+
+# ---------------------------------------------------------------------------
+# linearity and per-(batch, channel) action, directly on the code (no spec)
+# ---------------------------------------------------------------------------
+def g_slices(which, mode, dim=3, canary=False):
+    """which: afb1d | sfb1d | AFB1D | SFB1D | AFB2D | SFB2D.  No precondition on
+    sizes: covers signals shorter than the filter and the known-finding regions."""
+    mv = [Bn, C, N, H, W, L2, Lr2]
+    base = [Bn >= 1, C >= 1, N >= 1, H >= 1, W >= 1, L2 >= 1, Lr2 >= 1]
+    x4 = lambda nm: CD.data_tensor(nm, (Bn, C, H, W))
+    x3 = lambda nm: CD.data_tensor(nm, (Bn, C, N))
+    f1 = lambda a, b: [CD.filt_tensor(a, (1, 1, L), 2), CD.filt_tensor(b, (1, 1, L), 2)]
+    callees = {k_: v for k_, v in HELPERS.items() if not k_.endswith(':roll')}     # roll is inlined: no precondition on sizes
+    ins = ['x']
+    if which == 'afb1d':
+        mk = lambda: ([x4('x'), CD.filt_tensor('h0', _filt_shape(dim, L), dim % 4), CD.filt_tensor('h1', _filt_shape(dim, L), dim % 4)],
+                      {'mode': mode, 'dim': dim})
+        qual, ks = 'afb1d', [2]
+    elif which == 'sfb1d':
+        mk = lambda: ([x4('lo'), x4('hi'), CD.filt_tensor('g0', _filt_shape(dim, L), dim % 4), CD.filt_tensor('g1', _filt_shape(dim, L), dim % 4)],
+                      {'mode': mode, 'dim': dim})
+        qual, ks, ins = 'sfb1d', [1], ['lo', 'hi']
+    elif which == 'AFB1D':
+        mk = lambda: ([_fctx(), x3('x')] + f1('h0', 'h1') + [CD.MODE2INT[mode]], {})
+        qual, ks, callees = 'AFB1D.forward', [1, 1], ONE_LEVEL_CALLEES
+    elif which == 'SFB1D':
+        mk = lambda: ([_fctx(), x3('lo'), x3('hi')] + f1('g0', 'g1') + [CD.MODE2INT[mode]], {})
+        qual, ks, callees, ins = 'SFB1D.forward', [1], ONE_LEVEL_CALLEES, ['lo', 'hi']
+    elif which == 'AFB2D':
+        mk = lambda: ([_fctx(), x4('x')] + _filts2d('h') + [CD.MODE2INT[mode]], {})
+        qual, ks, callees = 'AFB2D.forward', [1, 1], ONE_LEVEL_CALLEES
+    elif which == 'SFB2D':
+        mk = lambda: ([_fctx(), x4('ll'), CD.data_tensor('hs', (Bn, C, 3, H, W))] + _filts2d('g') + [CD.MODE2INT[mode]], {})
+        qual, ks, callees, ins = 'SFB2D.forward', [1], ONE_LEVEL_CALLEES, ['ll', 'hs']
+    else:
+        raise ValueError(which)
+    if which in ('AFB1D', 'SFB1D', 'AFB2D', 'SFB2D'):
+        # one-level Functions are checked through the 1-D contracts, whose own
+        # preconditions (F1 region) then apply; afb1d/sfb1d themselves are checked bare
+        per = mode in ('per', 'periodization')
+        for d_, Lx in (((N, L),) if which.endswith('1D') else ((H, L), (W, Lr))):
+            if which.startswith('AFB'):
+                if per:
+                    base.append(d_ + d_ % 2 >= Lx)
+            else:
+                base.append(2 * d_ >= Lx - 2 if per else 2 * d_ - Lx + 2 >= 1)
+    oid = 'slices:%s[%s%s]' % (which, mode, ',dim=%d' % dim if which in ('afb1d', 'sfb1d') else '')
+    obs = []
+    info = {'paths': 0}
+    for k_, (c, out, args) in enumerate(verify.explore_body('dwt.lowlevel', qual, mk, base, callees)):
+        pid = '%s/path%d' % (oid, k_)
+        info['paths'] += 1
+        if out[0] == 'raise':
+            obs.append(Ob(pid + '/raises(no value to constrain)', 'POST', 'proved', 'path', 0, {'exception': out[1].kind}))
+            continue
+        outs = list(out[1]) if isinstance(out[1], tuple) else [out[1]]
+        for q, (t, kk) in enumerate(zip(outs, ks)):
+            if canary:
+                kk = kk + 1      # deliberately wrong channel map: must be refuted
+            obs += verify.linear_obs('%s/out%d' % (pid, q), t)
+            obs += verify.slice_obs('%s/out%d' % (pid, q), t, ins, kk, c.pc, mv)
+    return obs, info
+
+
+# ---------------------------------------------------------------------------
+# non-separable bank == separable bank (code against code, through the
+# separable functions' contracts)
+# ---------------------------------------------------------------------------
+NONSEP_CALLEES = dict(HELPERS)
+NONSEP_CALLEES['dwt.lowlevel:prep_filt_afb2d_nonsep'] = CD.prep_filt_afb2d_nonsep_contract
+NONSEP_CALLEES['dwt.lowlevel:prep_filt_sfb2d_nonsep'] = CD.prep_filt_sfb2d_nonsep_contract
+
+
+def g_prep_nonsep(which, nf):
+    con = CD.prep_filt_afb2d_nonsep_contract if 'afb' in which else CD.prep_filt_sfb2d_nonsep_contract
+
+    def mk():
+        a = [CD.np1d('f0', L), CD.np1d('f1', L)]
+        if nf == 4:
+            a += [CD.np1d('f2', Lr), CD.np1d('f3', Lr)]
+        return a, {}
+    return verify.verify_function('%s[%d filters]' % (which, nf), 'dwt.lowlevel', which, mk, BASE + [Lr2 >= 1], con, {},
+                                  SIZES + [Lr2], check_linear=False)
+
+
+def _np_filters(nf, pre):
+    f = [CD.np1d(pre + '0c', L), CD.np1d(pre + '1c', L)]
+    if nf == 4:
+        f += [CD.np1d(pre + '0r', Lr), CD.np1d(pre + '1r', Lr)]
+    return f
+
+
+def g_nonsep_afb(mode, nf, canary=False):
+    """afb2d_nonsep(x, filters, mode) == afb2d(x, filters, mode) (four subbands, same channel order)"""
+    base = BASE + [Lr2 >= 1]
+    if mode in ('per', 'periodization'):
+        base = base + [H + H % 2 >= L, W + W % 2 >= (Lr if nf == 4 else L)]
+
+    def mk():
+        return [CD.data_tensor('x', (Bn, C, H, W)), _np_filters(nf, 'd')], {'mode': mode}
+    con = CD.afb2d_contract if not canary else shift_canary(CD.afb2d_contract)
+    return verify.verify_function('afb2d_nonsep==afb2d[%s,%d]' % (mode, nf), 'dwt.lowlevel', 'afb2d_nonsep', mk, base,
+                                  con, NONSEP_CALLEES, SIZES + [Lr2])
+
+
+def g_nonsep_sfb(mode, nf):
+    """sfb2d_nonsep(coeffs, filters, mode) == sfb2d(ll, lh, hl, hh, filters, mode)"""
+    base = BASE + [Lr2 >= 1]
+    Lx = Lr if nf == 4 else L
+    if mode in ('per', 'periodization'):
+        base = base + [2 * H >= L - 2, 2 * W >= Lx - 2]
+    else:
+        base = base + [2 * H - L + 2 >= 1, 2 * W - Lx + 2 >= 1]
+
+    def mk():
+        return [CD.data_tensor('co', (Bn, C, 4, H, W)), _np_filters(nf, 'r')], {'mode': mode}
+
+    def contract(it, coeffs, filts, mode='zero'):
+        bands = [tget(coeffs, (slice(None), slice(None), k)) for k in range(4)]
+        return CD.sfb2d_contract(it, bands[0], bands[1], bands[2], bands[3], filts, mode)
+    return verify.verify_function('sfb2d_nonsep==sfb2d[%s,%d]' % (mode, nf), 'dwt.lowlevel', 'sfb2d_nonsep', mk, base,
+                                  contract, NONSEP_CALLEES, SIZES + [Lr2])
+
+
+def g_nonsep_direct(kind, nf, region='short'):
+    """periodization inside the region of finding F1 (some even-extended size is
+    smaller than the filter): no spec is available there, so the two real bodies
+    are executed side by side (1-D banks inlined) and compared with each other."""
+    base = BASE + [Lr2 >= 1]
+    Lx = Lr if nf == 4 else L
+    if kind == 'afb':
+        base = base + [z3.Or(H + H % 2 < L, W + W % 2 < Lx)]
+    else:
+        base = base + [z3.Or(2 * H < L - 2, 2 * W < Lx - 2)]
+    callees = {k: v for k, v in NONSEP_CALLEES.items() if not k.endswith(':roll')}
+    callees['dwt.lowlevel:prep_filt_afb2d'] = CD.prep_filt_afb2d_contract
+    callees['dwt.lowlevel:prep_filt_sfb2d'] = CD.prep_filt_sfb2d_contract
+
+    def mk():
+        if kind == 'afb':
+            return [CD.data_tensor('x', (Bn, C, H, W)), _np_filters(nf, 'd')], {'mode': 'periodization'}
+        return [CD.data_tensor('co', (Bn, C, 4, H, W)), _np_filters(nf, 'r')], {'mode': 'periodization'}
+
+    def contract(it, a, filts, mode='zero'):
+        it2 = Interp(contracts=callees)
+        if kind == 'afb':
+            return it2.call('dwt.lowlevel', 'afb2d', [a, filts], {'mode': mode}, force_body=True)
+        bands = [tget(a, (slice(None), slice(None), k)) for k in range(4)]
+        return it2.call('dwt.lowlevel', 'sfb2d', bands + [filts], {'mode': mode}, force_body=True)
+    return verify.verify_function('%s2d_nonsep==%s2d[periodization,%d,region=short-signal]' % (kind, kind, nf), 'dwt.lowlevel',
+                                  '%s2d_nonsep' % kind, mk, base, contract, callees, SIZES + [Lr2], max_paths=3000)
